@@ -4,7 +4,7 @@
     nodes, the bit invariant [tbits], representable keys, size).  [PInv] implies the executable
     check [p_inv_check] of PatInv.v, hence every query theorem proved there. *)
 From Coq Require Import List NArith ZArith Bool Lia Sorted.
-From Algo.C06 Require Import Spec SpecFacts Model ModelPat ProofsBinQ PatInv PatBits PatTree PatMatch.
+From Algo.C06 Require Import Spec SpecFacts Model ModelPat ProofsBinQ PatInv PatBits PatTree PatMatch PatDel.
 Import ListNotations.
 Open Scope Z_scope.
 
@@ -667,4 +667,48 @@ Section Put.
     intros t k v I KV. destruct (p_put_preserves t k v I KV) as [t' [P [I' C]]].
     exists t'. repeat split; auto. now apply PInv_check.
   Qed.
+
+  (** ** histories with DeleteAll, deletes of absent keys, and DeleteMin/DeleteMax on the empty trie *)
+  Lemma PInv_empty_root : forall t, PInv t -> p_contents t = [] -> proot t = None.
+  Proof.
+    intros t I C. destruct (proot t) as [r|] eqn:R; auto. exfalso.
+    pose proof (p_size_correct t (PInv_check t I)) as SZ. rewrite C in SZ. unfold s_size in SZ. simpl in SZ.
+    unfold PInv in I. rewrite R in I. destruct I as [rn [c [T I]]]. destruct I.
+    rewrite SZ in q_size0. destruct (leaves T) eqn:E; [now apply leaves_nonempty in E | simpl in q_size0; lia].
+  Qed.
+
+  Definition ok_event (m : smap V) (e : ev V) : Prop :=
+    match e with
+    | EPut k _ => kvalid k
+    | EDelete k => sget k m = None
+    | EDeleteAll => True
+    | EDeleteMin | EDeleteMax => m = []
+    | _ => checked_query_m e
+    end.
+
+  Fixpoint ok_hist (m : smap V) (es : list (ev V)) : Prop :=
+    match es with
+    | [] => True
+    | e :: es' => ok_event m e /\ ok_hist (fst (s_step m e)) es'
+    end.
+
+  Lemma p_run_partial : forall es t m, PInv t -> p_contents t = m -> ok_hist m es -> p_run t es = s_run m es.
+  Proof.
+    induction es as [|e es IH]; intros t m I C F; [reflexivity|]. destruct F as [E F]. cbn [p_run s_run].
+    destruct e; cbn [ok_event] in E; cbn [s_step fst] in F;
+      try (rewrite (p_step_checked_m t _ (PInv_check t I) E); subst m; cbn [s_step snd]; f_equal; now apply IH).
+    - destruct (p_put_preserves t k v I E) as [t' [P [I' C']]].
+      cbn [p_step s_step]. rewrite P. cbn [rbind lift_mut]. f_equal. apply IH; auto. now rewrite C', C.
+    - cbn [p_step s_step]. subst m. rewrite (p_delete_absent t k (PInv_check t I) E). cbn [lift_mut]. rewrite E.
+      assert (SD : sdel k (p_contents t) = p_contents t) by (apply sdel_notin; now apply sget_none_inv).
+      rewrite SD in *. f_equal. now apply IH.
+    - subst m. rewrite E in *. cbn [p_step s_step]. rewrite (p_deletemin_empty t (PInv_empty_root t I E)).
+      cbn [lift_mut hd_error tl]. f_equal. now apply IH.
+    - subst m. rewrite E in *. cbn [p_step s_step]. rewrite (p_deletemax_empty t (PInv_empty_root t I E)).
+      cbn [lift_mut]. f_equal. now apply IH.
+    - cbn [p_step s_step]. f_equal. apply IH; auto. unfold PInv. reflexivity.
+  Qed.
+
+  Theorem patricia_refines_partial : forall es : list (ev V), ok_hist [] es -> p_run p_new es = s_run [] es.
+  Proof. intros es F. apply p_run_partial; auto. unfold PInv. reflexivity. Qed.
 End Put.
